@@ -90,7 +90,13 @@ fn build(c: &Case) -> (cmd::Project, cmd::Remote) {
 pub fn run(r: &mut Report) {
     let mut d = Driver::spawn();
     let (shard, nshards) = shard();
-    r.rule = "cases = a first-party (path or git) package named like a crates.io crate, with policy audit-as-crates-io = none/true/false, registry state (crate absent, present with matching / non-matching metadata, published versions a random subset of 1..6), local full audits for a random subset of versions; then the real unlocked check, publication of the local version, and the real --locked check; non-trivial = the crate is forced to audit-as-crates-io and known to the registry; distinct by case parameters".into();
+    let rule08 = "cases = a first-party (path or git) package named like a crates.io crate, with policy audit-as-crates-io = none/true/false, registry state (crate absent, present with matching / non-matching metadata, published versions a random subset of 1..6), local full audits for a random subset of versions; then the real unlocked check, publication of the local version, and the real --locked check; non-trivial = the crate is forced to audit-as-crates-io and known to the registry; distinct by case parameters";
+    if r.prop == "C08" {
+        r.rule = rule08.into();
+    } else {
+        r.rule.push_str(" + registry histories: ");
+        r.rule.push_str(rule08);
+    }
     let n = if r.thorough() { 4000 } else { 480 } / nshards;
     let mut rng = Rng::new(r.seed.wrapping_add(shard.wrapping_mul(86028121)) ^ 0xC08);
     for i in 0..n {
@@ -181,6 +187,24 @@ pub fn run(r: &mut Report) {
                         }
                     } else if a == c.local_major && lock.contains("[[unpublished.firstparty]]") {
                         r.fail("oracle", "C08/unpublished-entry-for-published-version", format!("the exact version is published but an unpublished entry was recorded:\n{lock}"), &case);
+                    }
+                }
+            }
+            // C11: an unpublished link recorded in imports.lock must rest on what crates.io serves:
+            // the local version is not published, the version it is vetted as is
+            if r.prop == "C11" {
+                let lock = &files[2];
+                r.oracle_checked += 1;
+                if lock.contains("[[unpublished.") {
+                    let grab = |key: &str| lock.lines().find(|l| l.starts_with(key)).and_then(|l| l.split('"').nth(1)).and_then(|v| v.split('.').next()).and_then(|m| m.parse::<u64>().ok());
+                    let vs = c.registry.clone().unwrap_or_default();
+                    let (v, a) = (grab("version = "), grab("audited_as = "));
+                    let justified = match (v, a) {
+                        (Some(v), Some(a)) => v == c.local_major && !vs.contains(&v) && vs.contains(&a) && c.audit_as == Some(true),
+                        _ => false,
+                    };
+                    if !justified {
+                        r.fail("oracle", "C11/lock-records-unjustified-unpublished", format!("registry serves {vs:?}, local version {}.0.0, yet imports.lock now records:\n{lock}", c.local_major), &case);
                     }
                 }
             }
